@@ -61,6 +61,17 @@ class Unsupported(Exception):
     pass
 
 
+class ForkResult(Exception):
+    """an inlined call that is the whole value of a statement has several exits: the statement forks instead of merging"""
+
+    def __init__(self, outs):
+        self.outs = outs
+
+
+class DeadPath(Exception):
+    """the current path ends here (an obligation that it is unreachable / raises has been recorded)"""
+
+
 def skolemize(t):
     """drop universal binders in positive positions (bound names are globally unique constants)"""
     if t.op == "#forall":
@@ -91,6 +102,9 @@ EXC_PARENTS = {
     "LookupError": "Exception",
     "TypeError": "Exception",
     "AttributeError": "Exception",
+    "UnboundLocalError": "NameError",
+    "NameError": "Exception",
+    "ZeroDivisionError": "Exception",
     "ValueError": "Exception",
     "PermissionError": "OSError",
     "FileNotFoundError": "OSError",
@@ -200,6 +214,7 @@ class Run(object):
         self.result_value = None
         self.in_loop_effects = None
         self.entry_states = []
+        self.fork_node = None
         self._loop_ids = None
 
     def _init_bare(self, engine, qual):
@@ -223,6 +238,7 @@ class Run(object):
         self.result_value = None
         self.in_loop_effects = None
         self.entry_states = []
+        self.fork_node = None
         self._loop_ids = None
 
     # ------------------------------------------------------------ utilities
@@ -320,6 +336,10 @@ class Run(object):
     def field_info(self, cls, f):
         """(static type, heap key).  A field declared for a class gets its own heap array."""
         ft = self.engine.fields
+        ov = self.contract.get("fields") if self.contract else None
+        if ov:
+            ft = dict(ft)
+            ft.update(ov)
         for c in self.engine.mro(cls) if cls else []:
             if c + "." + f in ft:
                 return parse_type(ft[c + "." + f]), c.split(".")[-1] + "__" + f
@@ -501,6 +521,10 @@ class Run(object):
             return ModuleV(self.engine.spec_imports[n])
         if n in ("IndexError", "KeyError", "TypeError", "AttributeError", "PermissionError", "FileNotFoundError", "OSError", "Exception"):
             return ClassV("builtins." + n)
+        if not self.spec_mode and node is not None and isinstance(getattr(node, "ctx", None), ast.Load):
+            # a local that is not bound on this path: python raises UnboundLocalError (NameError)
+            self.check(st, FALSE, "UnboundLocalError", node)
+            raise DeadPath()
         raise Unsupported("unbound name %s (line %s)" % (n, getattr(node, "lineno", "?")))
 
     def ev_Attribute(self, node, st):
@@ -531,6 +555,8 @@ class Run(object):
                 if base.cls + "." + attr in self.engine.contracts:
                     return FuncV(base.cls + "." + attr, bound=base)
             return self.read_field(st, base, attr, node)
+        if isinstance(base, T) and base.sort == VAL:
+            return FuncV("method." + attr, bound=self.val_as(st, base, STR, node))
         if isinstance(base, (T, ListV, DictV, RecV)):
             return FuncV("method." + attr, bound=base)
         if isinstance(base, OptV):
@@ -544,6 +570,19 @@ class Run(object):
 
     def read_field(self, st, obj, f, node=None):
         ty, hk = self.field_info(obj.cls, f)
+        if ty.kind == "opt" and ty.arg.kind == "rec":
+            flag = self.heap_arr(st, hk + "__isnone", Type("bool"))
+            return OptV(Select(flag, obj.term), self.read_rec(st, obj, hk, ty.arg))
+        if ty.kind == "rec":
+            fields = {}
+            for name, opt, fty in ty.arg:
+                sub = self.heap_arr(st, hk + "__" + name, fty)
+                if fty.kind == "opt":
+                    val = OptV(Select(st.heap[hk + "__" + name + "?"], obj.term), self.wrap(st, Select(sub, obj.term), fty.arg))
+                else:
+                    val = self.wrap(st, Select(sub, obj.term), fty)
+                fields[name] = (TRUE, val)
+            return RecV(fields)
         arr = self.heap_arr(st, hk, ty)
         key = (obj.term, hk)
         if ty.kind == "list":
@@ -556,8 +595,57 @@ class Run(object):
             return OptV(isn, self.wrap(st, Select(arr, obj.term), ty.arg))
         return self.wrap(st, Select(arr, obj.term), ty)
 
+    def read_rec(self, st, obj, hk, ty):
+        fields = {}
+        for name, opt, fty in ty.arg:
+            sub = self.heap_arr(st, hk + "__" + name, fty)
+            if fty.kind == "opt":
+                val = OptV(Select(st.heap[hk + "__" + name + "?"], obj.term), self.wrap(st, Select(sub, obj.term), fty.arg))
+            else:
+                val = self.wrap(st, Select(sub, obj.term), fty)
+            fields[name] = (TRUE, val)
+        return RecV(fields)
+
     def write_field(self, st, obj, f, v, node=None):
         ty, hk = self.field_info(obj.cls, f)
+        if ty.kind == "opt" and ty.arg.kind == "rec":
+            flag = self.heap_arr(st, hk + "__isnone", Type("bool"))
+            st.effect = True
+            if isinstance(v, NoneV):
+                st.heap[hk + "__isnone"] = Store(flag, obj.term, TRUE)
+                return
+            if isinstance(v, OptV):
+                st.heap[hk + "__isnone"] = Store(flag, obj.term, v.isnone)
+                v = v.val
+            else:
+                st.heap[hk + "__isnone"] = Store(flag, obj.term, FALSE)
+            ty = ty.arg
+        if ty.kind == "rec":
+            if not isinstance(v, RecV):
+                raise Unsupported("assigning a non-record to record field " + f)
+            st.effect = True
+            for name, opt, fty in ty.arg:
+                sub = self.heap_arr(st, hk + "__" + name, fty)
+                if name not in v.fields:
+                    raise Unsupported("record field %s missing in assignment to %s" % (name, f))
+                x = v.fields[name][1]
+                if fty.kind == "opt":
+                    if isinstance(x, NoneV):
+                        st.heap[hk + "__" + name + "?"] = Store(st.heap[hk + "__" + name + "?"], obj.term, TRUE)
+                    elif isinstance(x, OptV):
+                        st.heap[hk + "__" + name + "?"] = Store(st.heap[hk + "__" + name + "?"], obj.term, x.isnone)
+                        st.heap[hk + "__" + name] = Store(sub, obj.term, self.raw(st, x.val))
+                    else:
+                        st.heap[hk + "__" + name + "?"] = Store(st.heap[hk + "__" + name + "?"], obj.term, FALSE)
+                        st.heap[hk + "__" + name] = Store(sub, obj.term, self.raw(st, x))
+                else:
+                    if isinstance(x, OptV):
+                        self.prove(st, Not(x.isnone), "field-type", node, f + "." + name)
+                        x = x.val
+                    if isinstance(x, T) and x.sort == VAL and fty.sort() in (INT, STR):
+                        x = self.val_as(st, x, fty.sort(), node)
+                    st.heap[hk + "__" + name] = Store(sub, obj.term, self.raw(st, x))
+            return
         arr = self.heap_arr(st, hk, ty)
         key = (obj.term, hk)
         st.effect = True
@@ -587,6 +675,10 @@ class Run(object):
             return
         if isinstance(v, NoneV):
             raise Unsupported("None stored into non-optional field " + f)
+        if isinstance(v, OptV):
+            # declared non-optional field: the stored value must not be None (type invariant of the field)
+            self.prove(st, Not(v.isnone), "field-type", node, f)
+            v = v.val
         st.heap[hk] = Store(arr, obj.term, self.raw(st, v))
 
     def set_cell(self, st, cid, val):
@@ -599,6 +691,8 @@ class Run(object):
     # ------------------------------------------------------------ subscripts
     def ev_Subscript(self, node, st):
         base = self.ev(node.value, st)
+        if isinstance(base, T) and base.sort == VAL:
+            base = self.val_as(st, base, STR, node)
         sl = node.slice
         if isinstance(sl, ast.Slice):
             if sl.step is not None:
@@ -745,6 +839,21 @@ class Run(object):
         return self.binop(st, node.op, a, b, node)
 
     def binop(self, st, op, a, b, node=None):
+        if isinstance(a, OptV):
+            self.check(st, Not(a.isnone), "TypeError", node)
+            a = a.val
+        if isinstance(b, OptV):
+            self.check(st, Not(b.isnone), "TypeError", node)
+            b = b.val
+        if isinstance(a, T) and isinstance(b, T) and (a.sort == VAL or b.sort == VAL):
+            other = b if a.sort == VAL else a
+            if other.sort in (INT, STR) and isinstance(op, (ast.Add, ast.Sub, ast.Mult)):
+                want = INT if (other.sort == INT and not isinstance(op, ast.Mult)) else (INT if other.sort == STR else None)
+                if want is not None:
+                    if a.sort == VAL:
+                        a = self.val_as(st, a, want, node)
+                    else:
+                        b = self.val_as(st, b, want, node)
         if isinstance(a, T) and isinstance(b, T):
             if a.sort == INT and b.sort == INT:
                 if isinstance(op, ast.Add):
@@ -763,7 +872,11 @@ class Run(object):
             if a.sort == STR and b.sort == STR and isinstance(op, ast.Add):
                 return Concat(a, b)
             if a.sort == STR and b.sort == INT and isinstance(op, ast.Mult):
+                UFS["str_repeat"] = ([STR, INT], STR)
                 return App("str_repeat", (a, b), STR)
+            if a.sort == INT and b.sort == STR and isinstance(op, ast.Mult):
+                UFS["str_repeat"] = ([STR, INT], STR)
+                return App("str_repeat", (b, a), STR)
         if isinstance(a, ListV) and isinstance(b, ListV) and isinstance(op, ast.Add):
             ea = a.elem or b.elem
             va = st.cells[a.cell][0]
@@ -796,6 +909,11 @@ class Run(object):
         if isinstance(op, (ast.Eq, ast.NotEq)):
             r = self.equal(st, a, b)
             return r if isinstance(op, ast.Eq) else Not(r)
+        if isinstance(a, T) and isinstance(b, T) and {a.sort, b.sort} == {INT, VAL}:
+            if a.sort == VAL:
+                a = self.val_as(st, a, INT, node)
+            else:
+                b = self.val_as(st, b, INT, node)
         if isinstance(a, T) and isinstance(b, T) and a.sort == INT and b.sort == INT:
             f = {ast.Lt: Lt, ast.LtE: Le, ast.Gt: Gt, ast.GtE: Ge}[type(op)]
             return f(a, b)
@@ -825,6 +943,10 @@ class Run(object):
             if a.sort != b.sort:
                 if {a.sort, b.sort} == {INT, BOOL}:
                     raise Unsupported("int/bool comparison")
+                if a.sort == VAL and b.sort in (INT, STR):
+                    return Eq(a, App("VInt" if b.sort == INT else "VStr", (b,), VAL))
+                if b.sort == VAL and a.sort in (INT, STR):
+                    return self.equal(st, b, a)
                 return FALSE
             return Eq(a, b)
         if isinstance(a, ListV) and isinstance(b, ListV):
@@ -905,7 +1027,11 @@ class Run(object):
 
     def ev_Dict(self, node, st):
         if node.keys:
-            raise Unsupported("non-empty dict literal")
+            if all(isinstance(k, ast.Constant) and isinstance(k.value, str) for k in node.keys):
+                return RecV({k.value: (TRUE, self.ev(v, st)) for k, v in zip(node.keys, node.values)})
+            raise Unsupported("dict literal with non-constant keys")
+        if self.contract.get("dict_literals") == "record":
+            return RecV({})
         ref = self.fresh("new_dict", REF)
         st.ghost["#allocated"] = set(st.ghost.get("#allocated", ())) | {str(ref)}
         return ObjV(ref, "builtins.dict")
@@ -1125,6 +1251,9 @@ class Run(object):
     def call_builtin(self, st, name, args, kwargs, node):
         if name == "len":
             (a,) = args
+            if isinstance(a, OptV):
+                self.check(st, Not(a.isnone), "TypeError", node)
+                a = a.val
             if isinstance(a, ListV):
                 v = st.cells[a.cell][0]
                 return I(0) if v is None else Len(v)
@@ -1162,15 +1291,31 @@ class Run(object):
             (a,) = args
             if isinstance(a, T) and a.sort == INT:
                 return a
+            if isinstance(a, T) and a.sort == STR:
+                UFS["int_of_str"] = ([STR], INT)
+                ok = self.fresh("int_ok", BOOL)
+                self.check(st, ok, "ValueError", node)
+                return App("int_of_str", (a,), INT)
             raise Unsupported("int() of non-int")
         if name == "str":
             (a,) = args
+            if isinstance(a, OptV) and isinstance(a.val, T):
+                return Ite(a.isnone, S("None"), self.call_builtin(st, "str", [a.val], {}, node))
             if isinstance(a, T) and a.sort == STR:
                 return a
             if isinstance(a, T) and a.sort == INT:
                 return App("str_of_int", (a,), STR)
+            if isinstance(a, T) and a.sort == VAL:
+                UFS["str_of_int"] = ([INT], STR)
+                return Ite(App("(_ is VStr)", (a,), BOOL), App("vstr", (a,), STR), App("str_of_int", (App("vint", (a,), INT),), STR))
             raise Unsupported("str() of %r" % (a,))
         if name == "isinstance":
+            if isinstance(args[0], OptV) and isinstance(args[0].val, T) and isinstance(args[1], FuncV):
+                return And(Not(args[0].isnone), self.call_builtin(st, "isinstance", [args[0].val, args[1]], kwargs, node))
+            if isinstance(args[0], T) and args[0].sort == VAL and isinstance(args[1], FuncV) and args[1].qual in ("builtins.str", "builtins.int"):
+                return App("(_ is VStr)" if args[1].qual == "builtins.str" else "(_ is VInt)", (args[0],), BOOL)
+            if isinstance(args[0], T) and args[0].sort in (INT, STR, BOOL) and isinstance(args[1], FuncV):
+                return B({"builtins.str": STR, "builtins.int": INT, "builtins.bool": BOOL}.get(args[1].qual) == args[0].sort)
             return self.engine.isinstance_hook(self, st, args[0], args[1], node)
         if "builtins." + name in self.engine.contracts:
             return self.call_function(st, "builtins." + name, args, kwargs, node)
@@ -1206,6 +1351,14 @@ class Run(object):
                 k = self.raw(st, args[0])
                 return OptV(Not(Select(base.keys, k)), self.wrap(st, Select(base.vals, k), base.vtype))
         raise Unsupported("method %s on %r" % (name, base))
+
+    def val_as(self, st, v, sort, node=None):
+        """use a Val-typed (int-or-str) python value as int / str: TypeError/AttributeError if it is the other kind"""
+        if sort == INT:
+            self.check(st, App("(_ is VInt)", (v,), BOOL), "TypeError", node)
+            return App("vint", (v,), INT)
+        self.check(st, App("(_ is VStr)", (v,), BOOL), "AttributeError", node)
+        return App("vstr", (v,), STR)
 
     def str_method(self, st, s, name, args, node):
         if name in ("isspace", "isdigit"):
@@ -1394,23 +1547,43 @@ class Run(object):
             eng.inline_stack.pop()
             self.module, self.cls, self.inner = saved
         outs = []
+        raised = []
         for c in comps:
             if c.kind == "normal":
                 outs.append((c.st, NONE))
             elif c.kind == "return":
                 outs.append((c.st, c.value))
             elif c.kind == "raise":
-                raise Unsupported("inlined callee %s raises" % q)
+                # the exception leaves the inlined callee: it becomes a pending raise of the caller's statement
+                if c.st.heap != st.heap or any(c.st.cells.get(k) != v for k, v in st.cells.items()):
+                    raise Unsupported("inlined callee %s raises after a side effect" % q)
+                raised.append((And(*c.st.pc[base_pc:]), c.exc))
             else:
                 raise Unsupported("break/continue escaping callee")
+        for cond, exc in raised:
+            handled = any(any(exc_matches(exc, h) for h in hs) for hs in self.try_depth)
+            allowed = self.contract.get("raises", "nothing")
+            if handled or (allowed != "nothing" and any(exc_matches(exc, a) for a in allowed)):
+                st.pending.append((And(*(st.guards + [cond])), exc, None))
+            else:
+                self.prove(st, Not(cond), "no-raise", node, exc)
         if not outs:
-            raise Unsupported("inlined callee %s has no normal exit" % q)
+            raise DeadPath()
         if len(outs) == 1:
             s1, v = outs[0]
             self.adopt(st, s1)
             return v
+        if self.fork_node is node and node is not None:
+            raise ForkResult(outs)
         # several exits: merge states and results with ite on the exits' path conditions
-        conds = [And(*s1.pc[base_pc:]) for s1, v in outs]
+        conds = []
+        for s1, v in outs:
+            cnd = And(*s1.pc[base_pc:])
+            if len(str(cnd)) > 300:
+                cb = self.fresh("exit_cond", BOOL)
+                st.pc.append(Eq(cb, cnd))
+                cnd = cb
+            conds.append(cnd)
         base_cells = dict(st.cells)
         for s1, v in outs:
             for k, c in s1.cells.items():
@@ -1449,7 +1622,35 @@ class Run(object):
             merged = self.merge_val(st, cnd, v, merged)
         return merged
 
+    def to_val(self, x):
+        if isinstance(x, T) and x.sort == INT:
+            return App("VInt", (x,), VAL)
+        if isinstance(x, T) and x.sort == STR:
+            return App("VStr", (x,), VAL)
+        return x
+
+    def named(self, st, term, base):
+        """give a large merged term a name (defining equation in the path condition) so that it is not copied into
+        every later term"""
+        if len(str(term)) < 300:
+            return term
+        c = self.fresh(base, term.sort)
+        st.pc.append(Eq(c, term))
+        return c
+
     def merge_val(self, st, cond, a, b):
+        # python values of different kinds (int / str) flowing together: lift both into the Val datatype
+        ta = a.val if isinstance(a, OptV) else a
+        tb = b.val if isinstance(b, OptV) else b
+        if isinstance(ta, T) and isinstance(tb, T) and ta.sort != tb.sort and {ta.sort, tb.sort} <= {INT, STR, VAL}:
+            if isinstance(a, OptV):
+                a = OptV(a.isnone, self.to_val(a.val))
+            else:
+                a = self.to_val(a)
+            if isinstance(b, OptV):
+                b = OptV(b.isnone, self.to_val(b.val))
+            else:
+                b = self.to_val(b)
         if isinstance(a, T) and isinstance(b, T) and a.sort == b.sort:
             return Ite(cond, a, b)
         if isinstance(a, NoneV) and isinstance(b, NoneV):
@@ -1653,7 +1854,10 @@ class Run(object):
         st.effect = False
         self.pre = st.fork()
         pre = self.pre
-        comps = m(s, st)
+        try:
+            comps = m(s, st)
+        except DeadPath:
+            return self.flush(st, pre)
         out = list(comps)
         if not isinstance(s, (ast.If, ast.For, ast.While, ast.Try, ast.With)):
             for c in comps:
@@ -1689,13 +1893,33 @@ class Run(object):
     def st_Pass(self, s, st):
         return [Completion("normal", st)]
 
+    def with_fork(self, s, st, value_node, cont):
+        """evaluate value_node; if it is an inlined call with several exits, continue once per exit"""
+        saved = self.fork_node
+        self.fork_node = value_node if isinstance(value_node, ast.Call) else None
+        caller_env = dict(st.env)
+        try:
+            v = self.ev(value_node, st)
+        except ForkResult as fr:
+            self.fork_node = saved
+            out = []
+            for s1, v1 in fr.outs:
+                s1.env = dict(caller_env)
+                s1.guards = list(st.guards)
+                s1.pending = list(st.pending) + list(s1.pending)
+                out.extend(cont(s1, v1))
+            return out
+        finally:
+            self.fork_node = saved
+        return cont(st, v)
+
     def st_Expr(self, s, st):
-        self.ev(s.value, st)
-        return [Completion("normal", st)]
+        return self.with_fork(s, st, s.value, lambda s1, v: [Completion("normal", s1)])
 
     def st_Return(self, s, st):
-        v = self.ev(s.value, st) if s.value is not None else NONE
-        return [Completion("return", st, value=v)]
+        if s.value is None:
+            return [Completion("return", st, value=NONE)]
+        return self.with_fork(s, st, s.value, lambda s1, v: [Completion("return", s1, value=v)])
 
     def st_Break(self, s, st):
         return [Completion("break", st)]
@@ -1796,6 +2020,13 @@ class Run(object):
                     nv = Empty(val.sort[1])
                 self.mutate(st, base, Concat(Extract(val, I(0), lo2), nv, Extract(val, hi3, Sub(n, hi3))))
                 return
+            if isinstance(base, RecV) and isinstance(target.value, ast.Name) and not isinstance(target.slice, ast.Slice):
+                k = self.ev(target.slice, st)
+                if isinstance(k, T) and k.op == "#str":
+                    nf = dict(base.fields)
+                    nf[k.val] = (TRUE, v)
+                    st.env[target.value.id] = RecV(nf)
+                    return
             if isinstance(base, DictV):
                 raise Unsupported("dict store")
         raise Unsupported("assignment target %s" % type(target).__name__)
